@@ -10,6 +10,7 @@ use libmctp::MessageType;
 use std::panic::{catch_unwind, AssertUnwindSafe};
 
 mod oracle;
+mod search;
 use oracle::*;
 
 fn quiet<F: FnOnce() -> R + std::panic::UnwindSafe, R>(f: F) -> Result<R, String> {
@@ -239,6 +240,44 @@ fn main() {
         }
         return;
     }
-    eprintln!("usage: replay witness <name>...");
+    if args.len() >= 5 && args[1] == "search" {
+        // replay search <PID> <seed> <iterations>
+        let pid = &args[2];
+        let seed: u64 = args[3].parse().unwrap_or(0);
+        let iters: u64 = args[4].parse().unwrap_or(1000);
+        let prev = std::panic::take_hook();
+        std::panic::set_hook(Box::new(|_| {}));
+        let mut evals = 0u64;
+        let mut distinct = std::collections::HashSet::new();
+        for (name, chk) in search::checks_for(pid) {
+            for i in 0..iters {
+                let mut g = search::Gen::random(seed.wrapping_add(i).wrapping_mul(2654435761).wrapping_add(name.len() as u64));
+                let r = chk(&mut g);
+                evals += 1;
+                distinct.insert(g.tape.iter().take(24).cloned().collect::<Vec<u8>>());
+                if let Err(m) = r {
+                    let tape: String = g.tape.iter().map(|b| format!("{:02x}", b)).collect();
+                    println!("FOUND {{\"check\":\"{}\",\"tape\":\"{}\",\"detail\":{:?}}}", name, tape, m);
+                    std::panic::set_hook(prev);
+                    return;
+                }
+            }
+        }
+        std::panic::set_hook(prev);
+        println!("NONE evaluations={} distinct={}", evals, distinct.len());
+        return;
+    }
+    if args.len() >= 4 && args[1] == "case" {
+        // replay case <check> <tape-hex>
+        let chk = match search::check_by_name(&args[2]) { Some(c) => c, None => { eprintln!("unknown check"); std::process::exit(2) } };
+        let h = &args[3];
+        let tape: Vec<u8> = (0..h.len() / 2).map(|i| u8::from_str_radix(&h[2 * i..2 * i + 2], 16).unwrap_or(0)).collect();
+        let prev = std::panic::take_hook();
+        std::panic::set_hook(Box::new(|_| {}));
+        let r = chk(&mut search::Gen::replay(tape));
+        std::panic::set_hook(prev);
+        match r { Err(m) => { println!("REPRODUCED {}", m); std::process::exit(1) } Ok(()) => { println!("NOT-REPRODUCED"); return } }
+    }
+    eprintln!("usage: replay witness <name>... | search <PID> <seed> <iters> | case <check> <tape>");
     std::process::exit(2);
 }
